@@ -19,6 +19,7 @@ type Bounds struct {
 	SmallMax  uint64
 	Budget    int
 	TimeoutMs int
+	DeadlineS int // wall-clock budget per function (0 = engine default)
 }
 
 var DefaultBounds = Bounds{MaxStr: 2, MaxSlice: 2, MaxMap: 2, SmallMax: 3, Budget: 200_000, TimeoutMs: 10000}
@@ -415,7 +416,7 @@ func ValidateFunc(prog *engine.Program, fn *ssa.Function, glp *gl.Program, glNam
 			}
 		}
 	}
-	opt := engine.Options{Budget: b.Budget, TimeoutMs: b.TimeoutMs, MaxPaths: 20000}
+	opt := engine.Options{Budget: b.Budget, TimeoutMs: b.TimeoutMs, MaxPaths: 20000, DeadlineS: b.DeadlineS}
 	rep := prog.ExploreHost(c.ID, body, opt, workers)
 	return &Outcome{Case: c, Report: rep, Skipped: skipped}
 }
